@@ -33,7 +33,12 @@ fn gen_single(r: &mut Rng) -> Case {
         tmpl: gen_small_tmpl(r, wu, 0),
         target: TInit::Term(Some(*r.pick(&[1u8, 20, 255]))),
     };
-    let mut t = 0;
+    // one case in four: the finishing call carries an instant EARLIER than the last painted frame
+    // (what happens when the finishing thread read the clock, then waited for a lock while another
+    // thread, with a later instant, painted): the limiter's `prev` is then in the future of `now`,
+    // and the final frame must be painted all the same
+    let step_back = r.chance(1, 4);
+    let mut t = if step_back { 10_000_000_000 } else { 0 };
     let mut ops = vec![];
     for _ in 0..r.range(25, 45) {
         t += *r.pick(&[0u64, 0, 1, 1000]);
@@ -48,6 +53,9 @@ fn gen_single(r: &mut Rng) -> Case {
         ));
     }
     t += *r.pick(&[0u64, 1]);
+    if step_back {
+        t -= *r.pick(&[1u64, 5_000_000, 2_000_000_000]);
+    }
     ops.push((
         t,
         match r.below(4) {
